@@ -11,7 +11,7 @@ One shared-memory access (or one random draw) per step, in the order the code pe
 The value domain is a parameter `Alg`: for int64 the heap holds the exact (unwrapped, ghost) `Int`
 total of each location and a load returns its two's-complement `view`; for float64 the heap
 holds the bit pattern and `add` is IEEE addition.  `maxCells` is a parameter.
-Maintenance operations are enabled only at quiescence (ghost `active`/`maint`): they are
+Maintenance operations are enabled only at quiescence (ghost `actv`/`maint`): they are
 documented as not safe against concurrent updates.
 -/
 namespace Garr.Adder
@@ -85,16 +85,17 @@ def casCellA (alg : Alg) (g : G) (c : Nat) (x : Int) : G :=
   { g with cell := fun k => if k = c then alg.add (g.cell k) x else g.cell k, applied := g.applied + x }
 
 /-- leave the operation -/
-def leave (g : G) (v : V) : G := if v.mnt then { g with active := 0, maint := false } else { g with active := g.active - 1 }
+def leave (t : Tid) (g : G) (v : V) : G :=
+  if v.mnt then { g with actv := [], maint := false } else { g with actv := g.actv.filter (· ≠ t) }
 
-def retAdd (g : G) (v : V) (x : Int) : G × L × List Obs := (leave g v, .idle, [.lp x, .ret none])
+def retAdd (t : Tid) (g : G) (v : V) (x : Int) : G × L × List Obs := (leave t g v, .idle, [.lp x, .ret none])
 
 /-- `getRandomInt()`: the 32-bit word masked to 31 bits -/
 def rint (w : Nat) : Nat := w % 2147483648
 
 /-- One step of a running operation: performs the access on `g` (`w` = the random word if the step is a
 draw) and the local computation up to the next access. -/
-def stepRun (alg : Alg) (maxCells : Nat) (g : G) (pc : PC) (v : V) (w : Nat) : G × L × List Obs :=
+def stepRun (alg : Alg) (maxCells : Nat) (t : Tid) (g : G) (pc : PC) (v : V) (w : Nat) : G × L × List Obs :=
   let rehashed := { v with idx := rehash v.idx }
   let enterAcc (v : V) (idx : BitVec 64) (unc : Bool) : L :=
     if idx == 0 then .run .enter2 { v with col := false } else .run .c0 { v with idx := idx, unc := unc, col := false }
@@ -106,7 +107,7 @@ def stepRun (alg : Alg) (maxCells : Nat) (g : G) (pc : PC) (v : V) (w : Nat) : G
       | some t => (g, .run .ar { v with as := t }, [])
   | .a1 => (g, .run .a2 { v with v := alg.view g.base }, [])
   | .a2 =>
-      if alg.view g.base = v.v then retAdd (casBaseA alg g v.x) v v.x
+      if alg.view g.base = v.v then retAdd t (casBaseA alg g v.x) v v.x
       else (g, .run .enter1 v, [])
   | .ar => (g, .run .a3 { v with j := rint w &&& (v.as.2 - 1) }, [])
   | .a3 =>
@@ -115,7 +116,7 @@ def stepRun (alg : Alg) (maxCells : Nat) (g : G) (pc : PC) (v : V) (w : Nat) : G
       | some c => (g, .run .a4 { v with a := c }, [])
   | .a4 => (g, .run .a5 { v with v := alg.view (g.cell v.a) }, [])
   | .a5 =>
-      if alg.view (g.cell v.a) = v.v then retAdd (casCellA alg g v.a v.x) v v.x
+      if alg.view (g.cell v.a) = v.v then retAdd t (casCellA alg g v.a v.x) v v.x
       else (g, enterAcc v (BitVec.ofNat 64 v.j) false, [])
   | .enter1 => (g, enterAcc v (BitVec.ofNat 64 (rint w)) true, [])
   | .enter2 => (g, .run .c0 { v with idx := BitVec.ofNat 64 (rint w), unc := true, col := false }, [])
@@ -147,11 +148,11 @@ def stepRun (alg : Alg) (maxCells : Nat) (g : G) (pc : PC) (v : V) (w : Nat) : G
       | none => (g, .run .c5c v, [])
       | some _ => (g, .run .c5e v, [])
   | .c5c => (attach g v.rs.1 v.j v.x, .run .c5d v, [.lp v.x])
-  | .c5d => (leave { g with busy := false } v, .idle, [.ret none])
+  | .c5d => (leave t { g with busy := false } v, .idle, [.ret none])
   | .c5e => ({ g with busy := false }, .run .c0 v, [])
   | .c6 => (g, .run .c7 { v with v := alg.view (g.cell v.a) }, [])
   | .c7 =>
-      if alg.view (g.cell v.a) = v.v then retAdd (casCellA alg g v.a v.x) v v.x
+      if alg.view (g.cell v.a) = v.v then retAdd t (casCellA alg g v.a v.x) v v.x
       else if v.as.2 - 1 ≥ maxCells then (g, .run .c0 { rehashed with col := false }, [])
       else (g, .run .c8 v, [])
   | .c8 =>
@@ -186,58 +187,58 @@ def stepRun (alg : Alg) (maxCells : Nat) (g : G) (pc : PC) (v : V) (w : Nat) : G
   | .k3f => (g, .run .k4a v, [])                                  -- float: r.store(x) on the private cell
   | .k4a => (g, .run .k4b v, [])                                  -- store into the still private array
   | .k4b => (initTable g v.j v.x, .run .k4c v, [.lp v.x])
-  | .k4c => (leave { g with busy := false } v, .idle, [.ret none])
+  | .k4c => (leave t { g with busy := false } v, .idle, [.ret none])
   | .kb => (g, .run .kb2 { v with v := alg.view g.base }, [])
   | .kb2 =>
-      if alg.view g.base = v.v then retAdd (casBaseA alg g v.x) v v.x
+      if alg.view g.base = v.v then retAdd t (casBaseA alg g v.x) v v.x
       else (g, .run .c0 v, [])
   -- Sum (and the first half of SumAndReset)
   | .s0 => (g, .run .s1 { v with acc := alg.view g.base }, [])
   | .s1 =>
       match g.tbl with
-      | none => if v.sar then (g, .run .t0 { v with x := 0 }, []) else (leave g v, .idle, [.ret (some (alg.view v.acc))])
+      | none => if v.sar then (g, .run .t0 { v with x := 0 }, []) else (leave t g v, .idle, [.ret (some (alg.view v.acc))])
       | some t => (g, .run .s2 { v with as := t, i := 0 }, [])
   | .s2 =>
       match slotAt g v.as v.i with
       | none =>
         if v.i + 1 < v.as.2 then (g, .run .s2 { v with i := v.i + 1 }, [])
-        else if v.sar then (g, .run .t0 { v with x := 0 }, []) else (leave g v, .idle, [.ret (some (alg.view v.acc))])
+        else if v.sar then (g, .run .t0 { v with x := 0 }, []) else (leave t g v, .idle, [.ret (some (alg.view v.acc))])
       | some c => (g, .run .s3 { v with a := c }, [])
   | .s3 =>
       let v' := { v with acc := alg.add v.acc (alg.view (g.cell v.a)) }
       if v'.i + 1 < v'.as.2 then (g, .run .s2 { v' with i := v'.i + 1 }, [])
-      else if v.sar then (g, .run .t0 { v' with x := 0 }, []) else (leave g v, .idle, [.ret (some (alg.view v'.acc))])
+      else if v.sar then (g, .run .t0 { v' with x := 0 }, []) else (leave t g v, .idle, [.ret (some (alg.view v'.acc))])
   -- Store(x) (Reset = Store 0; second half of SumAndReset)
   | .t0 => (storeBase g v.x, .run .t1 v, [])
   | .t1 =>
       let out : Option Int := if v.sar then some (alg.view v.acc) else none
       match g.tbl with
-      | none => (leave g v, .idle, [.ret out])
+      | none => (leave t g v, .idle, [.ret out])
       | some t => (g, .run .t2 { v with as := t, i := 0 }, [])
   | .t2 => if v.i + 1 < v.as.2 then (g, .run .t2 { v with i := v.i + 1 }, []) else (g, .run .t3 v, [])
   | .t3 =>
       let out : Option Int := if v.sar then some (alg.view v.acc) else none
-      (leave (storeTable g v.as.2) v, .idle, [.ret out])
+      (leave t (storeTable g v.as.2) v, .idle, [.ret out])
 
 /-- does this pc draw a random word? -/
 def draws : PC → Bool
   | .ar | .enter1 | .enter2 => true
   | _ => false
 
-def step (alg : Alg) (maxCells : Nat) (_t : Tid) (g : G) : L → Act → Option (G × L × List Obs)
-  | .idle, .add x => if g.maint then none else some ({ g with active := g.active + 1 }, .run .a0 { x := x }, [])
-  | .idle, .sum => if g.maint then none else some ({ g with active := g.active + 1 }, .run .s0 {}, [])
+def step (alg : Alg) (maxCells : Nat) (t : Tid) (g : G) : L → Act → Option (G × L × List Obs)
+  | .idle, .add x => if g.maint then none else some ({ g with actv := t :: g.actv }, .run .a0 { x := x }, [])
+  | .idle, .sum => if g.maint then none else some ({ g with actv := t :: g.actv }, .run .s0 {}, [])
   | .idle, .store x =>
-      if g.maint || g.active != 0 then none
-      else some ({ g with active := 1, maint := true }, .run .t0 { x := x, mnt := true }, [])
+      if g.maint || !g.actv.isEmpty then none
+      else some ({ g with actv := [t], maint := true }, .run .t0 { x := x, mnt := true }, [])
   | .idle, .reset =>
-      if g.maint || g.active != 0 then none
-      else some ({ g with active := 1, maint := true }, .run .t0 { x := 0, mnt := true }, [])
+      if g.maint || !g.actv.isEmpty then none
+      else some ({ g with actv := [t], maint := true }, .run .t0 { x := 0, mnt := true }, [])
   | .idle, .sumAndReset =>
-      if g.maint || g.active != 0 then none
-      else some ({ g with active := 1, maint := true }, .run .s0 { sar := true, mnt := true }, [])
-  | .run pc v, .tau => if draws pc then none else some (stepRun alg maxCells g pc v 0)
-  | .run pc v, .rnd w => if draws pc then some (stepRun alg maxCells g pc v w) else none
+      if g.maint || !g.actv.isEmpty then none
+      else some ({ g with actv := [t], maint := true }, .run .s0 { sar := true, mnt := true }, [])
+  | .run pc v, .tau => if draws pc then none else some (stepRun alg maxCells t g pc v 0)
+  | .run pc v, .rnd w => if draws pc then some (stepRun alg maxCells t g pc v w) else none
   | _, _ => none
 
 def initG : G := { base := 0, busy := false, narr := 0, arr := fun _ => { cap := 0, slot := fun _ => none },
